@@ -252,17 +252,18 @@ func ratioModel(cfg config, depth int, rep *lib.Report) *lib.Model[*sys] {
 
 // Run explores every configuration assigned to this shard.
 func Run(tier string, sh lib.Shard, rep *lib.Report) {
-	depth, rdepth := 5, 4
+	depth, rdepth, pdepth := 5, 4, 4
 	if tier == "thorough" {
-		depth, rdepth = 7, 6
+		depth, rdepth, pdepth = 7, 6, 6
 	}
+	rep.Bounds["depth_beyond_prepared_state(window filled once)"] = pdepth
 	rep.Bounds["counter_history_depth"] = depth
 	rep.Bounds["ratio_history_depth"] = rdepth
 	rep.Bounds["alphabet_counter"] = "Inc(1) Count Inc(3) Advance{r/3,r/2,r,3r/2,(N-1)r,Nr,(N+1)r,2Nr+r/2}"
 	rep.Bounds["configurations"] = "N in {1,2,3,5,10} x r in {1s,1.5s,2s,2.5s,3s,7s,10s,60s} x 4 clock phases"
 	rep.Rule = "breadth-first search over all operation histories up to the depth bound on the real counter; state key = reflective dump of the counter + absolute instant + reference increments still inside N*r (exact key: merges only identical futures); a state is non-trivial when the reference window holds at least one increment"
 	rep.Assume("A2: one API call observes one instant of the frozen clock")
-	rep.Require("states_with_recent_increments", "states_with_boundary_latitude", "states_after_everything_aged_out", "ratio_states_nonempty_window", "ratio_states_empty_window")
+	rep.Require("states_with_recent_increments", "states_with_boundary_latitude", "states_after_everything_aged_out", "ratio_states_nonempty_window", "ratio_states_empty_window", "prepared_state_searches")
 	for i, cfg := range configs(tier) {
 		if !sh.Mine(i) {
 			continue
@@ -273,6 +274,36 @@ func Run(tier string, sh lib.Shard, rep *lib.Report) {
 		m2 := ratioModel(cfg, rdepth, rep)
 		r2 := m2.Run(rep)
 		rep.Sample(3, map[string]any{"model": m2.Name, "result": r2.Describe()})
+		// start from a non-initial state too: the window has been filled once (an increment in each of N
+		// consecutive slots, 2N operations from the initial state), then every history of pdepth more operations
+		if cfg.n > 1 {
+			find := func(m *lib.Model[*sys], name string) int {
+				for i, n := range m.Ops {
+					if n == name {
+						return i
+					}
+				}
+				panic("no op " + name)
+			}
+			m3 := counterModel(cfg, pdepth, rep)
+			m3.Name += "/from-filled-window"
+			var root []int
+			for k := 0; k < cfg.n; k++ {
+				root = append(root, find(m3, "Inc(1)"), find(m3, fmt.Sprintf("Advance(%v)", cfg.res)))
+			}
+			m3.Roots = [][]int{root}
+			r3 := m3.Run(rep)
+			rep.Sample(3, map[string]any{"model": m3.Name, "result": r3.Describe()})
+			m4 := ratioModel(cfg, pdepth-1, rep)
+			m4.Name += "/from-filled-window"
+			root = nil
+			for k := 0; k < cfg.n; k++ {
+				root = append(root, find(m4, "IncA(1)"), find(m4, fmt.Sprintf("Advance(%v)", cfg.res)))
+			}
+			m4.Roots = [][]int{root}
+			m4.Run(rep)
+			rep.Count("prepared_state_searches")
+		}
 		rep.Count("configurations_explored")
 	}
 	rep.Nontrivial = rep.Counters["states_with_recent_increments"] + rep.Counters["ratio_states_nonempty_window"]
